@@ -22,7 +22,7 @@ from .. import rx
 from ..domains import AbsStr, AbsInt, Cond, _freeze
 from ..interp import (AbstractValue, Interp, Oracle, Obj, Unknown, enumerate_paths, Raised, is_abstract, RxVal,
                       MISSING, GenVal, PathLimit, LoopTruncated)
-from ..model import AnalysisError, ClassInfo, loc, walk_function, PKG
+from ..model import AnalysisError, ClassInfo, FuncInfo, loc, walk_function, PKG
 from ..report import load_audit
 from .. import tokens as tk
 from .c08 import get_facts
@@ -78,7 +78,7 @@ def receiver_kind(ctx, fi, expr, depth=0, seen=None):
     model = ctx.model
     tok = model.cls('token.Token')
     seen = set() if seen is None else seen
-    if depth > 4:
+    if depth > 16:
         return 'maybe-token'
     if isinstance(expr, ast.Name):
         params = fi.params()
@@ -112,15 +112,111 @@ def receiver_kind(ctx, fi, expr, depth=0, seen=None):
                 if receiver_kind(ctx, s_.caller, arg, depth + 1, seen) != 'not-a-token':
                     return 'maybe-token'
             return 'not-a-token'
-        from ..affine import single_defs
-        d = single_defs(fi.node).get(expr.id)
-        if d is not None:
-            return receiver_kind(ctx, fi, d, depth + 1, seen)
-        return 'maybe-token'
+        # a local: every value it is ever bound to (assignments, loop variables) must be a non-token
+        defs = _bindings_of(fi, expr.id)
+        if not defs:
+            return 'maybe-token'
+        for kind, d in defs:
+            k = receiver_kind(ctx, fi, d, depth + 1, seen) if kind == 'value' else _element_kind(ctx, fi, d, depth + 1, seen)
+            if k != 'not-a-token':
+                return 'maybe-token'
+        return 'not-a-token'
     if isinstance(expr, ast.Call):
-        r = model.resolve_expr(fi.modname, expr.func)
+        try:
+            r = model.resolve_expr(fi.modname, expr.func)
+        except Exception:
+            r = None
         if isinstance(r, ClassInfo):
             return 'maybe-token' if r.is_subclass_of(tok) else 'not-a-token'
+        if isinstance(r, FuncInfo):
+            # what a function of the package returns: every return value must be a non-token
+            key = ('ret', r.qualname)
+            if key in seen:
+                return 'not-a-token'
+            seen.add(key)
+            rets = [n for n in walk_function(r.node) if isinstance(n, ast.Return) and n.value is not None]
+            if rets and all(receiver_kind(ctx, r, n.value, depth + 1, seen) == 'not-a-token' for n in rets):
+                return 'not-a-token'
+        return 'maybe-token'
+    if isinstance(expr, ast.Subscript) and not isinstance(expr.slice, ast.Slice):
+        return _element_kind(ctx, fi, expr.value, depth + 1, seen)
+    if isinstance(expr, ast.IfExp):
+        return 'not-a-token' if all(receiver_kind(ctx, fi, e, depth + 1, seen) == 'not-a-token' for e in (expr.body, expr.orelse)) \
+            else 'maybe-token'
+    return 'maybe-token'
+
+
+def _bindings_of(fi, name):
+    """[('value', expr) | ('element', iterable expr)] for every binding of a local name in the function."""
+    out = []
+    for n in walk_function(fi.node):
+        if isinstance(n, ast.Assign):
+            for t in n.targets:
+                if isinstance(t, ast.Name) and t.id == name:
+                    out.append(('value', n.value))
+                elif isinstance(t, (ast.Tuple, ast.List)) and any(isinstance(x, ast.Name) and x.id == name for x in ast.walk(t)):
+                    return []
+        elif isinstance(n, (ast.For, ast.comprehension)):
+            if isinstance(n.target, ast.Name) and n.target.id == name:
+                out.append(('element', n.iter))
+            elif any(isinstance(x, ast.Name) and x.id == name for x in ast.walk(n.target)):
+                return []
+        elif isinstance(n, (ast.AugAssign, ast.NamedExpr, ast.With)):
+            tgt = getattr(n, 'target', None)
+            if tgt is not None and any(isinstance(x, ast.Name) and x.id == name for x in ast.walk(tgt)):
+                return []
+    return out
+
+
+def _element_kind(ctx, fi, expr, depth, seen):
+    """Kind of the elements of a list-valued expression: 'not-a-token' only if every element it can hold is one."""
+    model = ctx.model
+    if depth > 16:
+        return 'maybe-token'
+    if isinstance(expr, ast.Subscript) and isinstance(expr.slice, ast.Slice):
+        return _element_kind(ctx, fi, expr.value, depth + 1, seen)
+    if isinstance(expr, (ast.List, ast.Tuple)):
+        return 'not-a-token' if expr.elts and all(receiver_kind(ctx, fi, e, depth + 1, seen) == 'not-a-token' for e in expr.elts) \
+            else ('not-a-token' if not expr.elts else 'maybe-token')
+    if isinstance(expr, ast.ListComp):
+        return 'maybe-token'
+    if isinstance(expr, ast.Attribute) and expr.attr == 'children':
+        # the children of a non-token (a candidate match) are candidates, not tokens
+        return 'not-a-token' if receiver_kind(ctx, fi, expr.value, depth + 1, seen) == 'not-a-token' else 'maybe-token'
+    if isinstance(expr, ast.Call):
+        try:
+            r = model.resolve_expr(fi.modname, expr.func)
+        except Exception:
+            r = None
+        if getattr(r, 'dotted', None) in ('builtins.sorted', 'builtins.list', 'builtins.reversed', 'builtins.tuple') and expr.args:
+            return _element_kind(ctx, fi, expr.args[0], depth + 1, seen)
+        if isinstance(r, FuncInfo):
+            key = ('elts', r.qualname)
+            if key in seen:
+                return 'not-a-token'
+            seen.add(key)
+            rets = [n for n in walk_function(r.node) if isinstance(n, ast.Return) and n.value is not None]
+            if rets and all(_element_kind(ctx, r, n.value, depth + 1, seen) == 'not-a-token' for n in rets):
+                return 'not-a-token'
+        return 'maybe-token'
+    if isinstance(expr, ast.Name):
+        if expr.id in fi.params():
+            return 'maybe-token'
+        vals = _bindings_of(fi, expr.id)
+        if not vals or any(k != 'value' for k, _ in vals):
+            return 'maybe-token'
+        for _, d in vals:
+            if _element_kind(ctx, fi, d, depth + 1, seen) != 'not-a-token':
+                return 'maybe-token'
+        # ... and everything appended to it
+        for n in walk_function(fi.node):
+            if isinstance(n, ast.Call) and isinstance(n.func, ast.Attribute) and isinstance(n.func.value, ast.Name) \
+                    and n.func.value.id == expr.id and n.func.attr in ('append', 'insert', 'extend') and n.args:
+                a = n.args[-1]
+                k = _element_kind(ctx, fi, a, depth + 1, seen) if n.func.attr == 'extend' else receiver_kind(ctx, fi, a, depth + 1, seen)
+                if k != 'not-a-token':
+                    return 'maybe-token'
+        return 'not-a-token'
     return 'maybe-token'
 
 
